@@ -12,7 +12,7 @@
 //!        MaterializedStore::read_frame): first `sink=<ts>.<id>` — the mark a real MaterializedSink re-opened on that
 //!        store carries (bootstrap_from_manifest) —, then per frame  maxts.maxid:k/ts/id,k/ts/id,...
 //!   mat_catalog <hex cols dir> <name>   the catalog entry of <name> read from disk with MaterializationCatalog::load / get:
-//!        cat=<ts>.<id> (0.0 = None) rows=<row_count>   | NOENTRY
+//!        cat=<ts>.<id> (0.0 = None) rows=<row_count> path=<hex of entry.storage_path>   | NOENTRY
 //!   mat_layout <hex cols dir> <uid>     per shard directory, per numeric segment directory holding <uid>.zones:
 //!        mtime of the .zones file and per zone (ZoneMeta::load) timestamp_max, created_at and the k values of the
 //!        zone read with ColumnReader::load_for_zone.
@@ -136,7 +136,8 @@ fn catalog_probe(t: &[String]) -> String {
     match cat.get(&t[2]) {
         Ok(Some(e)) => {
             let m = e.high_water_mark.unwrap_or_default();
-            format!("cat={}.{} rows={}", m.timestamp, m.event_id, e.row_count)
+            format!("cat={}.{} rows={} path={}", m.timestamp, m.event_id, e.row_count,
+                    crate::probes::hexs(e.storage_path.to_string_lossy().as_bytes()))
         }
         Ok(None) => "NOENTRY".into(),
         Err(e) => format!("ERR {e}"),
